@@ -164,6 +164,15 @@ def ops_to_events(sc, ops):
             f = sc.classify(o["dst"])
             if f != "other":
                 ev.append({"e": "open", "f": f})
+        elif op == "copy_link" and o.get("failed"):
+            continue
+        elif op == "copy_link":
+            # the new name resolves to the file the source link points to
+            f, g = sc.classify(o["dst"]), sc.classify(os.path.realpath(o["src"]))
+            if f == "old" and g == "dest":
+                ev.append({"e": "alias", "f": f})
+            elif f != "other" or g != "other":
+                ev.append({"e": "meta", "f": f if f != "other" else g})
         elif op in ("write", "copy_write"):
             f = sc.classify(o["path"])
             if f != "other":
